@@ -582,6 +582,40 @@ class Exec:
                     return res[0][0], None
         return Opaque("const " + c[:80]), None
 
+    def closure_operands(self, rhs, ops):
+        """rustc's MIR printer names closure captures by their root variable and prints ONE operand per name: with disjoint field
+        captures (`self.min_src`, `self.offsets`) only the first operand appears in the text. The capture operands are evaluated by
+        the statements immediately before the aggregate, in order; recover the missing ones from there."""
+        lm = re.match(r"^\{closure@([^}]*)\}", rhs)
+        if not lm or self.mf is None:
+            return ops
+        body = self.mf.resolve_closure(lm.group(1))
+        if body is None:
+            return ops
+        used = [int(k) for k in re.findall(r"\(\*?_1\)?\.(\d+): ", "\n".join(body.lines))] + \
+               [int(k) for k in re.findall(r"\(\(\*_1\)\.(\d+): ", "\n".join(body.lines))]
+        need = (max(used) + 1) if used else 0
+        if need <= len(ops):
+            return ops
+        stmts, si = getattr(self, "_cur_stmt", (None, 0))
+        if stmts is None:
+            raise Unsupported("closure with %d captures but %d printed operands" % (need, len(ops)))
+        prev = []
+        j = si - 1
+        while j >= 0 and len(prev) < need:
+            mm = re.match(r"^(_\d+) = (.*);$", stmts[j])
+            if mm and not parse_call(stmts[j]):
+                prev.append(mm.group(1))
+            elif not re.match(r"^(StorageLive|StorageDead|nop|FakeRead|Retag)\b", stmts[j]):
+                break
+            j -= 1
+        prev.reverse()
+        if len(prev) != need:
+            raise Unsupported("cannot recover the %d capture operands of a closure (%d printed)" % (need, len(ops)))
+        if ops and not re.search(r"\b%s\b" % re.escape(prev[0]), ops[0]):
+            raise Unsupported("closure capture recovery: the first recovered local %s is not the printed operand %s" % (prev[0], ops[0]))
+        return ["move " + x for x in prev]
+
     # ---- rvalues
     def rvalue(self, st, rhs, dst_ty=None):
         rhs = rhs.strip()
@@ -648,9 +682,12 @@ class Exec:
         m = re.match(r"^\{closure@[^}]*\}(?: \{ (.*) \})?$", rhs) or re.match(r"^\{coroutine@.*\}", rhs)
         if m:
             caps = {}
+            ops = []
             if m.lastindex and m.group(1):
-                for i, f in enumerate(split_top(m.group(1), ", ")):
-                    caps[i] = self.operand(st, f.split(": ", 1)[1])[0]
+                ops = [f.split(": ", 1)[1] for f in split_top(m.group(1), ", ")]
+            ops = self.closure_operands(rhs, ops)
+            for i, f in enumerate(ops):
+                caps[i] = self.operand(st, f)[0]
             return Struct("closure", caps)
         # enum variant / struct aggregate:  path::Variant(args)  |  path::Variant  |  Name { f: v, .. }
         m = re.match(r"^([\w:<>, '&\[\]()]*?)(\w+)(?:::<[^{}]*>)? \{ (.*) \}$", rhs)
@@ -826,6 +863,7 @@ class Exec:
         stmts = self.F(st).blocks[bb]
         for si in range(start, len(stmts)):
             s = stmts[si]
+            self._cur_stmt = (stmts, si)
             if re.match(r"^(StorageLive|StorageDead|nop|FakeRead|PlaceMention|Retag|AscribeUserType|Coverage|ConstEvalCounter|BackwardIncompatibleDropHint)\b", s):
                 continue
             m = re.match(r"^switchInt\((.*)\) -> \[(.*)\];$", s)
@@ -943,11 +981,24 @@ class Exec:
         """Option/Result adaptors taking a crate-local closure: unwrap_or_else, map, map_err, and_then. The closure body is inlined."""
         if self.inline is None or self.mf is None or nxt.startswith("unwind"):
             return False
-        m = re.match(r"^(?:std::(?:option|result)::)?(Option|Result)::<.*>::(unwrap_or_else|map|map_err|and_then)::<.*\{closure@([^}]*)\}>$", callee)
+        m = re.match(r"^(?:std::(?:option|result)::)?(Option|Result)::<.*>::(unwrap_or_else|map|map_err|and_then|map_or)::<.*\{closure@([^}]*)\}>$", callee)
         if not m or not argv or not isinstance(argv[0], Enum):
             return False
         kind, method, loc = m.group(1), m.group(2), m.group(3)
         v = argv[0]
+        if method == "map_or":
+            # map_or(default, f): None/Err => default, Some/Ok(x) => f(x)
+            if len(argv) != 3:
+                return False
+            fn = self.mf.resolve_closure(loc)
+            if fn is None:
+                return False
+            if v.variant in ("Some", "Ok"):
+                self.push_frame(st, fn, [argv[2]] + list(v.fields[:1]), dst, nxt)
+            else:
+                self.write(st, dst, argv[1])
+                self.goto(nxt, st)
+            return True
         clos = argv[1] if len(argv) > 1 else Opaque("closure")
         good = v.variant in ("Some", "Ok")
         fn = self.mf.resolve_closure(loc)
